@@ -242,10 +242,11 @@ func (c *c17Cache) Stop(context.Context) error  { return nil }
 
 func (c *c17Cache) Get(context.Context, string) ([]byte, error) { return nil, errors.New("miss") }
 
-// c17TTL: a configured TTL is a whole number of seconds and is recorded exactly; a TTL derived from
-// the clock (expiry minus now) is recorded by its order of magnitude only.
+// c17TTL: a configured TTL is a whole number of seconds, at most a few hours, and is recorded exactly; a
+// TTL derived from the clock (expiry minus now, with the far-future expiries the APIs here hand out, or
+// with sub-second precision) is recorded by its order of magnitude only.
 func c17TTL(ttl time.Duration) string {
-	if ttl%time.Second == 0 {
+	if ttl%time.Second == 0 && ttl <= 24*time.Hour {
 		return fmt.Sprintf("%ds", int64(ttl/time.Second))
 	}
 
